@@ -98,6 +98,36 @@ class ProgGen:
         return setup, threads
 
 
+def long_past_lines(rng, per_combo, flags):
+    """Programs on a level with a long past: exactly T-1, T or T+1 removals by id happened before the threads start (T a round
+    number a queue-internal counter might use), one or two orders rest, and the threads are an add / cancel racing an update,
+    cancel, add or match - so a threshold crossed by the FIRST concurrent operation is crossed in every program."""
+    out = []
+    n = 0
+    for T in (32, 64, 128, 256):
+        for delta in (-1, 0, 1):
+            for _ in range(per_combo):
+                g = ProgGen(rng, n_threads=2)
+                g.ts = 10
+                setup = []
+                keep = []
+                for _k in range(rng.choice([1, 1, 2])):
+                    oid, o = g.order()
+                    setup.append("ADD " + o)
+                    keep.append(oid)
+                for _j in range(T + delta):
+                    oid, o = g.order()
+                    setup.append("ADD " + o)
+                    setup.append("UPD C:%s" % oid)
+                oid, o = g.order()
+                t0 = rng.choice(["ADD " + o, "ADD " + o, "UPD C:%s" % keep[-1]])
+                t1 = rng.choice(["UPD C:%s" % keep[0], "UPD UQ:%s:%d" % (keep[0], rng.choice([1, 3, 30])), "ADD " + g.order()[1],
+                                 "MATCH %d u9800" % rng.choice([1, 50]), "UPD UQ:%s:%d" % (keep[0], rng.choice([2, 9]))])
+                out.append(prog_line("L%d" % n, g.price, setup, [[t0], [t1]], "%s%d" % (rng.choice("rp"), rng.randint(1, 10 ** 9)), flags))
+                n += 1
+    return out
+
+
 def prog_line(pid, price, setup, threads, sched, flags="drain"):
     return "%s|%d|%s|%s|%s|%s" % (pid, price, ";".join(setup), "#".join(";".join(t) for t in threads), sched, flags)
 
